@@ -48,7 +48,7 @@ def any_key():
 def params_for(kty):
     sig_ok = kty in ("oct", "RSA", "EC", "OKP")
     return st.fixed_dictionaries({}, optional={
-        "kid": st.sampled_from(["k1", "é-kid", "a/b+c="]), "alg": st.sampled_from(["HS256", "RS256", "ES256", "A128KW"]),
+        "kid": st.sampled_from(["k1", "é-kid", "a/b+c=", ""]), "alg": st.sampled_from(["HS256", "RS256", "ES256", "A128KW"]),
         "x5t": st.just("dGh1bWI"), "x5c": st.just(["MIIB"]),
         "use_ops": st.sampled_from([("sig", None), ("enc", None), (None, ["sign", "verify"]), (None, ["encrypt", "decrypt"]), ("sig", ["verify"]), ("enc", ["wrapKey", "unwrapKey"]),
                                     (None, ["deriveKey", "deriveBits"])]),
